@@ -13,8 +13,8 @@ def NOT_REPRODUCED(msg=''):
     print('not reproduced', msg); sys.exit(0)
 
 
-ls = [0.5, 0.5]
-T = 0.5
+ls = [1.0, 0.0]
+T = 1.0
 segs = []
 x = 0.0
 for i, l in enumerate(ls):
